@@ -446,7 +446,12 @@ func cmdCheck(args []string) int {
 		}
 	}
 	for k := range prog.Ifaces {
-		assumptions = append(assumptions, "environment contract assumed: "+k)
+		for _, r := range reports {
+			if r.X != nil && r.X.fn.Pkg != nil && strings.HasPrefix(k, shortPkg(r.X.fn.Pkg.Pkg.Path())+"|") {
+				assumptions = append(assumptions, "environment contract assumed: "+k)
+				break
+			}
+		}
 	}
 	sort.Strings(assumptions[8:])
 	ev := map[string]interface{}{
